@@ -90,7 +90,7 @@ class BuiltinMixin:
             return v.kind
         if isinstance(v, VRef):
             h = st.deref(v)
-            return {HList: "list", HDict: "dict", HODict: "dict", HIter: "iter", HCIter: "iter", HDeque: "deque"}.get(type(h), "obj")
+            return {HList: "list", HDict: "dict", HODict: "dict", HIter: "iter", HCIter: "iter", HDeque: "deque", HSet: "set"}.get(type(h), "obj")
         if isinstance(v, VConst):
             if isinstance(v.py, bytes):
                 return "bytes"
@@ -758,6 +758,22 @@ class BuiltinMixin:
             else:
                 out.append(self.raised(s, "StopIteration"))
         return out
+
+    def b_set(self, st, args, kwargs):
+        if not args:
+            return [(st, st.alloc(HSet([])))]
+        items = self.concrete_items(st, args[0])
+        if items is None:
+            raise Unsupported("set() of a symbolic iterable")
+        return [(st, st.alloc(HSet(list(items))))]
+
+    def m_HSet_add(self, st, ref, args, kwargs):
+        st.deref(ref).items.append(args[0])
+        st.log.append(("setitem", ref.addr, "add"))
+        return [(st, NONE)]
+
+    def m_HSet_discard(self, st, ref, args, kwargs):
+        raise Unsupported("set.discard")
 
     def b_list(self, st, args, kwargs):
         if not args:
